@@ -39,6 +39,7 @@ CASES = {'quick': 14000, 'thorough': 200000}
 TIME = {'quick': 70, 'thorough': 540}
 MIN_NONTRIVIAL = {'quick': 1500, 'thorough': 15000}
 REQUIRED = ('static_attributes_compared', 'variant_codes_checked',
+            'board_sizes_checked',
             'export_round_trips',
             'fixed_limit_offers', 'no_limit_offers', 'pot_limit_offers',
             'pot_limit_offers_raked_pot',
@@ -324,6 +325,19 @@ class VariantMonitor(Monitor):
     def on_decision(self, ctx, s, avail):
         if s.actor_index is None:
             return
+        # board cards per street as the table says (read from the state:
+        # each board holds what the streets dealt so far prescribe)
+        k = s.street_index
+        exp_board = sum(row[2] for row in self.sp['streets'][:k + 1])
+        got_board = [len(list(s.get_board_cards(j))) for j in s.board_indices]
+        fallback = bool(self.sp['stud']) and any(got_board)
+        if not fallback:
+            ctx.counters['board_sizes_checked'] += 1
+            if any(g != exp_board for g in got_board):
+                ctx.violate(f'{ctx.cfg["game"]}: betting on street {k} with '
+                            f'boards of {got_board} cards, the variant '
+                            f'prescribes {exp_board} by then '
+                            f'(board_cards {s.board_cards})')
         lo = s.min_completion_betting_or_raising_to_amount
         hi = s.max_completion_betting_or_raising_to_amount
         if lo is None:
